@@ -28,4 +28,4 @@ Deliver in /tmp/seed-{tag}/out/ :
   patch.diff  — `git -C /tmp/seed-{tag}/repo diff` of your change (must apply with `git apply` to a clean checkout of the same commit)
   demo.py     — a self-contained script (run as `cd <repo> && PYTHONPATH=<repo> /venv/bin/python demo.py`, it must not hard-code your worktree path: import tsdate from PYTHONPATH) that builds the specific input/sequence, checks the property as stated above, prints what it observed, and exits 0 when the property holds (unpatched code) and exits 1 when it is violated (patched code). It must be deterministic (fixed seeds) and finish in under 3 minutes.
   meta.json   — {{"property": "{pid}", "summary": "<one line: what the change does>", "needs": "<what specific input/sequence/config is needed for it to manifest>", "sites": ["file:function", ...], "ran": ["<commands you ran and their outcome, incl. the test-suite result>"]}}
-Verify yourself: demo.py exits 0 on the unpatched worktree (`git stash`), exits 1 with the patch; the test suite passes with the patch. Leave the worktree with the patch applied. In your final message give the summary, what is needed to manifest, and the verification outcomes.""")
+Verify yourself: demo.py exits 0 on the unpatched worktree (save your change with `git diff > /tmp/seed-{tag}/my.diff`, revert with `git apply -R`, re-apply with `git apply`; NEVER use `git stash` — the stash is shared by all worktrees of this repository and other people use them concurrently), exits 1 with the patch; the test suite passes with the patch. Leave the worktree with the patch applied. In your final message give the summary, what is needed to manifest, and the verification outcomes.""")
